@@ -149,7 +149,8 @@ pub fn catalogue(thorough: bool) -> Vec<Spec> {
                         for &wrap in &wraps {
                             for use_first in [false, true] {
                                 // the second statement order is combined with the plain use only
-                                if use_first && wrap != 0 {
+                                // (uses in front of the definitions: unwrapped and in the other expression positions)
+                                if use_first && wrap != 0 && WRAPS[wrap] != "expr-positions" {
                                     continue;
                                 }
                                 out.push(Spec::Base { kinds: [k0, k1, k2], ulevel, form, wrap, use_first });
@@ -474,6 +475,10 @@ impl Gen {
                 let l = self.line(f, format!("{}.align 1 + {} - {}", i, path, path));
                 self.path_occs(f, l, i.len() as u32 + 11, 0, path, level, path, w);
                 self.path_occs(f, l, i.len() as u32 + 11 + pl + 3, 0, path, level, path, w);
+                // (a loop count: the expression is also where the loop's own `index` is defined)
+                let l = self.line(f, format!("{}.loop 1 + {} - {} {{ nop }}", i, path, path));
+                self.path_occs(f, l, i.len() as u32 + 10, 0, path, level, path, w);
+                self.path_occs(f, l, i.len() as u32 + 10 + pl + 3, 0, path, level, path, w);
             }
             "shadowed-first-segment" => {
                 // a plain label that is called like the first segment of a dotted path, nearer than the scope of
